@@ -12,6 +12,8 @@ import (
 	"strconv"
 	"strings"
 	"time"
+
+	"golang.org/x/tools/go/ssa"
 )
 
 func envWithout(name string) []string {
@@ -183,6 +185,13 @@ func main() {
 				}
 			}()
 		}
+	case "callees":
+		e, err := NewEngine(repo, verif)
+		if err != nil {
+			fmt.Println("load error:", err)
+			os.Exit(2)
+		}
+		listCallees(e)
 	case "list":
 		e, err := NewEngine(repo, verif)
 		if err != nil {
@@ -456,4 +465,40 @@ func writeUndecided(path, prop, tier string, seed int, reason string, wall float
 	ev := evidence{PropertyID: prop, Tier: tier, Seed: seed, Level: "other", Coverage: map[string]interface{}{"explanation": "UNDECIDED: " + reason}, Assumptions: []string{}, WallS: wall}
 	data, _ := json.MarshalIndent(ev, "", " ")
 	os.WriteFile(path, data, 0o644)
+}
+
+func listCallees(e *Engine) {
+	seen := map[string]int{}
+	for k, fn := range e.fnByKey {
+		if !e.isRepoFn(fn) || strings.Contains(k, "_test") {
+			continue
+		}
+		for _, b := range fn.Blocks {
+			for _, in := range b.Instrs {
+				var cc *ssa.CallCommon
+				switch x := in.(type) {
+				case *ssa.Call:
+					cc = &x.Call
+				case *ssa.Defer:
+					cc = &x.Call
+				case *ssa.Go:
+					cc = &x.Call
+				}
+				if cc == nil {
+					continue
+				}
+				n := calleeName(cc)
+				if n == "" {
+					n = "<dynamic>"
+				}
+				if callee := cc.StaticCallee(); callee != nil && e.isRepoFn(callee) {
+					continue
+				}
+				seen[n]++
+			}
+		}
+	}
+	for _, k := range sortedKeys(seen) {
+		fmt.Printf("%4d %s\n", seen[k], k)
+	}
 }
